@@ -1,6 +1,7 @@
 pub mod c02;
 pub mod c03;
 pub mod c05;
+pub mod c06;
 pub mod common;
 
 use crate::engine::Tier;
@@ -11,6 +12,7 @@ pub fn run(prop: &str, tier: Tier, seed: u64) -> i32 {
         "C02" => c02::run(tier, seed),
         "C03" => c03::run(tier, seed),
         "C05" => c05::run(tier, seed),
+        "C06" => c06::run(tier, seed),
         _ => {
             eprintln!("unknown property {prop}");
             2
@@ -31,6 +33,15 @@ pub fn replay(prop: &str, path: &str) -> i32 {
         "C02" => c02::replay(&doc),
         "C03" => c03::replay(&doc),
         "C05" => c05::replay(&doc),
+        "C06" => c06::replay(&doc),
+        _ => 2,
+    }
+}
+
+/// the check process died: try to turn the inputs it was working on into a verdict
+pub fn after_crash(prop: &str, root: &std::path::Path) -> i32 {
+    match prop {
+        "C06" => c06::after_crash(root),
         _ => 2,
     }
 }
